@@ -190,6 +190,24 @@ Definition merge_slice (m : mode) (l : list schema) : option schema :=
   | s :: t => merge_fold m s t
   end.
 
+(** The same fold guarded by a check of every pair of schemas (i < j): mergeSchemaSlice as repaired by
+    patches/C09-fix-1.  If all pairs merge, the fold succeeds in every order with the same result
+    (MergeProofsPairs.v), so this function does not depend on the order of [l] at all. *)
+Definition is_some_schema (o : option schema) : bool := match o with Some _ => true | None => false end.
+
+Fixpoint all_pairs_ok (m : mode) (l : list schema) : bool :=
+  match l with
+  | [] => true
+  | x :: t => forallb (fun y => is_some_schema (merge_schemas m x y)) t && all_pairs_ok m t
+  end.
+
+Definition merge_slice_checked (m : mode) (l : list schema) : option schema :=
+  if all_pairs_ok m l then merge_slice m l else None.
+
+(** [repaired = false]: the code as it is; [repaired = true]: with patches/C09-fix-1 applied. *)
+Definition slice_of (repaired : bool) : mode -> list schema -> option schema :=
+  if repaired then merge_slice_checked else merge_slice.
+
 (** processSchemaVersions + MergeIntrospectionSchemas (schema.go:173-227): services and versions are
     Go maps; the code iterates them in sorted name order.  The input here is an association list
     with distinct keys (a map); [sort_kv] puts it in that order. *)
@@ -215,6 +233,19 @@ Definition merge_all (ss : services) : option schema :=
   match process_versions ss with
   | None => None
   | Some per => merge_slice Union (map snd per)
+  end.
+
+(** the same three functions over either reading of mergeSchemaSlice ([_r false] is the function above) *)
+Definition service_schema_r (rp : bool) (vs : versions) : option schema :=
+  slice_of rp Intersection (map snd (sort_kv vs)).
+
+Definition process_versions_r (rp : bool) (ss : services) : option (list (string * schema)) :=
+  map_opt (fun sv => option_map (pair (fst sv)) (service_schema_r rp (snd sv))) (sort_kv ss).
+
+Definition merge_all_r (rp : bool) (ss : services) : option schema :=
+  match process_versions_r rp ss with
+  | None => None
+  | Some per => slice_of rp Union (map snd per)
   end.
 
 (** ConvertVersionedSchemas' FieldInfo.Services (schema.go:255-327): the services whose
@@ -488,9 +519,13 @@ Record case := mk_case {
   c_field_services : list (string * string * list string);  (* (type, field, sorted services) from ConvertVersionedSchemas *)
   c_queries : list (list sel * list (string * string * bool))
       (* query, and for (service, version) whether PrepareQuery on that version's built schema accepted it *);
-  c_fedkeys : nat   (* ConvertVersionedSchemas: 1 = accepted, 2 = refused with "Invalid federation key",
+  c_fedkeys : nat;  (* ConvertVersionedSchemas: 1 = accepted, 2 = refused with "Invalid federation key",
                        3 = refused with "... exists on another server and is not federated",
                        4 = refused, whatever the message (generated key configurations only), 0 = anything else *)
+  c_repaired : bool;  (* which reading of mergeSchemaSlice the implementation under test shows on the fixed
+                         three-version probe: false = plain fold (the code as it is), true = pairs checked first *)
+  c_per_service : list (string * option json)
+      (* per service: MergeIntrospectionSchemas of that service alone = the intersection of its versions *)
 }.
 
 Definition opt_json_eqb (a b : option json) : bool :=
@@ -515,8 +550,9 @@ Definition lookup_version (ss : services) (svc ver : string) : option schema :=
 
 Definition check_case (c : case) : list nat :=
   let ss := c_services c in
-  (if opt_json_eqb (option_map schema_json (merge_all ss)) (c_merged c) then [] else [1]) ++
-  (match process_versions ss with
+  let rp := c_repaired c in
+  (if opt_json_eqb (option_map schema_json (merge_all_r rp ss)) (c_merged c) then [] else [1]) ++
+  (match process_versions_r rp ss with
    | None => []
    | Some per =>
        if forallb (fun e => let '(ty, f, svcs) := e in
@@ -530,25 +566,30 @@ Definition check_case (c : case) : list nat :=
                          | None => false
                          end) (snd qe)) (c_queries c)
    then [] else [3]) ++
-  (match c_fedkeys c, process_versions ss with
-   | 1, Some per => match merge_slice Union (map snd per) with
+  (match c_fedkeys c, process_versions_r rp ss with
+   | 1, Some per => match slice_of rp Union (map snd per) with
                     | Some m => if fedobjs_ok per m && fedkeys_ok per m then [] else [4]
                     | None => []
                     end
-   | 2, Some per => match merge_slice Union (map snd per) with
+   | 2, Some per => match slice_of rp Union (map snd per) with
                     | Some m => if fedobjs_ok per m && negb (fedkeys_ok per m) then [] else [4]
                     | None => []
                     end
-   | 3, Some per => match merge_slice Union (map snd per) with
+   | 3, Some per => match slice_of rp Union (map snd per) with
                     | Some m => if fedobjs_ok per m then [4] else []
                     | None => []
                     end
-   | 4, Some per => match merge_slice Union (map snd per) with
+   | 4, Some per => match slice_of rp Union (map snd per) with
                     | Some m => if fedobjs_ok per m && fedkeys_ok per m then [4] else []
                     | None => []
                     end
    | _, _ => []
-   end).
+   end) ++
+  (if forallb (fun e => match lookup (fst e) ss with
+                        | Some vs => opt_json_eqb (option_map schema_json (service_schema_r rp vs)) (snd e)
+                        | None => false
+                        end) (c_per_service c)
+   then [] else [5]).
 
 Fixpoint mismatches_from_sparse (_ : nat) (cs : list (nat * case)) : list (nat * list nat) :=
   match cs with
